@@ -480,8 +480,9 @@ void profile_io(Gen &g, bool damage_heavy) {
 			p.ops.push_back(f);
 			if (damage_heavy || (g.faults && r.chance(1, 2))) { Op dm = g.mk(0, "damage"); g.seti(dm, "pick", r.below(8)); g.set(dm, "kind", std::vector<std::string>{"torn", "flip", "token", "token", "block_dup"}[r.below(5)]); g.seti(dm, "at", r.below(100000)); g.seti(dm, "len", r.below(56)); g.seti(dm, "bit", r.below(8)); p.ops.push_back(dm); }
 			Op rd = g.mk(0, "read"); g.seti(rd, "pick", -1); g.set(rd, "via", r.chance(1, 3) ? "reader" : "path"); io_faults(rd, false); p.ops.push_back(rd);
-			if (r.chance(1, 2) || f.has("badnames")) {   // what was read from a foreign producer (integer marks, odd layouts, names the LP format cannot spell) goes through the library's own writers
-				Op w2 = g.mk(0, "write"); g.seti(w2, "o", -1); g.set(w2, "fmt", r.chance(1, 2) && !f.has("badnames") ? "MPS" : "LP"); g.set(w2, "via", "path"); g.set(w2, "path", strf("f%d", nfile++)); g.seti(w2, "comp", r.below(3)); p.ops.push_back(w2);
+			bool longfrac = f.has("mal") && f.i("mal") % 16 == 15;   // the long fractions only hurt when they meet on one line of an LP file
+			if (r.chance(1, 2) || f.has("badnames") || longfrac) {   // what was read from a foreign producer (integer marks, odd layouts, names the LP format cannot spell) goes through the library's own writers
+				Op w2 = g.mk(0, "write"); g.seti(w2, "o", -1); g.set(w2, "fmt", r.chance(1, 2) && !f.has("badnames") && !longfrac ? "MPS" : "LP"); g.set(w2, "via", "path"); g.set(w2, "path", strf("f%d", nfile++)); g.seti(w2, "comp", r.below(3)); p.ops.push_back(w2);
 				Op r2 = g.mk(0, "read"); g.seti(r2, "pick", -1); g.set(r2, "via", "path"); p.ops.push_back(r2);
 			}
 		}
